@@ -252,19 +252,21 @@ def next_untrimmed_chunk(field, chunk, chunk_size):
 
 @exetera_njit
 def get_valid_value_extents(chunk, start, end, invalid=-1):
+    """
+    Return the smallest and the largest valid entry of ``chunk[start:end]``, or
+    ``(invalid, invalid)`` if every entry is ``invalid``. The valid entries do not have to be
+    ordered: every one of them lies between the two values returned.
+    """
     first = invalid
+    last = invalid
     for i in range(start, end):
         if chunk[i] != invalid:
-            first = chunk[i]
-            break
-    last = invalid
-
-    j = end - 1
-    while j >= i:
-        if chunk[j] != invalid:
-            last = chunk[j]
-            break
-        j -= 1
+            if first == invalid:
+                first = chunk[i]
+                last = chunk[i]
+            else:
+                first = min(first, chunk[i])
+                last = max(last, chunk[i])
 
     return first, last
 
@@ -396,15 +398,25 @@ def ordered_map_valid_partial_old(d, data_field, map_field, result, invalid):
 
 @exetera_njit
 def next_map_subchunk(map_, sm, invalid, chunksize):
-
-    start = -1
-    while sm < len(map_) and map_[sm] == invalid:
-        sm += 1
-
-    if sm < len(map_):
-        start = map_[sm]
-
-    while sm < len(map_) and map_[sm] - start < chunksize:
+    """
+    Return the end of the longest run of map entries starting at ``sm`` whose valid entries
+    span fewer than ``chunksize`` source rows (largest - smallest < chunksize). The valid entries
+    do not have to be ordered; invalid entries never end a sub-chunk.
+    """
+    found = False
+    lo = invalid
+    hi = invalid
+    while sm < len(map_):
+        if map_[sm] != invalid:
+            if not found:
+                found = True
+                lo = map_[sm]
+                hi = map_[sm]
+            else:
+                if max(hi, map_[sm]) - min(lo, map_[sm]) >= chunksize:
+                    break
+                lo = min(lo, map_[sm])
+                hi = max(hi, map_[sm])
         sm += 1
 
     return sm
@@ -564,9 +576,14 @@ def ordered_map_valid_indexed_stream(data_field, map_field, result_field,
                                          "use a larger chunksize or value_factor".format(
                                              len(result_values)))
 
-                    # update the subchunk if necessary
+                    # update the subchunk if necessary: fetch the one that holds the next entry
+                    # (the map does not have to be ordered, so it can lie on either side)
                     if need_subchunk:
-                        s += 1
+                        i = map_[sm] - i_limits[0]
+                        while i >= sub_chunks[s][1]:
+                            s += 1
+                        while i < sub_chunks[s][0]:
+                            s -= 1
                         sc = sub_chunks[s]
                         values_ = data_field.values[indices_[sc[0]]:indices_[sc[1]]]
 
@@ -616,7 +633,7 @@ def ordered_map_valid_indexed_partial(sm_values,
             result_indices[ri] = ri_accum
         else:
             i = sm_values[sm] - mv_start
-            if i >= i_max:
+            if i < i_start or i >= i_max:
                 need_values = True
                 break
             v_start = indices[i] - v_offset
